@@ -162,14 +162,14 @@ def h_expr_depth2(ck: int, pos: int) -> bool:
 
 
 LEAVES = ["'usage: prog [options]\\n    --help   show this help'", "'a\\nb'", "1000000", "1e+100", "16", "b'\\x00\\''", "...", "None", "'it\\'s'", "-1", "1.5j",
-          "'tab\\there and a long tail of text to pass twenty characters'", "(1, 'x\\ny')"]
+          "'tab\\there and a long tail of text to pass twenty characters'", "(1, 'x\\ny')", "'a\\x00b'", "'\\x01\\x7f'"]
 NLEAF = len(LEAVES)
 
 
 @harness(
     parts=lambda: list(range(NK)), timeout=(200, 1200), cls="E", tracing="concrete-after-choice", twin="first",
     code=["PyvalColorizer._colorize_ast_constant/_colorize_str", "PyvalColorizer._colorize_ast_generic (astor fallback)", "PyvalColorizer._colorize_ast*", "colorize_inline_pyval / colorize_pyval"],
-    bounds={"quick": "every parent form (47) x operand position x 13 literal leaves (long and short multi-line strings, string with quote, with tab, big int, float with exponent, bytes with NUL and quote, Ellipsis, None, negative number, imaginary, tuple holding a multi-line string), inline and multi-line rendering",
+    bounds={"quick": "every parent form (47) x operand position x 15 literal leaves (long and short multi-line strings, string with quote, with tab, big int, float with exponent, bytes with NUL and quote, Ellipsis, None, negative number, imaginary, tuple holding a multi-line string), inline and multi-line rendering",
             "thorough": "same"},
     outside="f-strings; leaves outside the table",
 )
@@ -199,6 +199,7 @@ EXTRA = {
     "cmp_mixed": "{0} < {1} == {2}", "boolmix": "{0} and {1} or {2}", "not": "not {0}", "neg_pow": "-{0} ** {1}", "pow_neg": "{0} ** -{1}", "await_call": "await {0}({1})",
     "yield_from": "(yield from {0})", "ellipsis_sub": "{0}[..., {1}]", "dict_multi": "{{{0}: {1}, **{2}}}", "tuple_star": "(*{0}, {1})", "nested_ifexp": "{0} if {1} else ({2} if a else b)",
     "str_concat": "'a' 'b' + {0}", "call_kwstar": "f(**{0}, **{1})", "generic_ann": "Dict[{0}, List[{1}]]", "callable_ann": "Callable[[{0}, {1}], {2}]",
+    "sub_empty_tuple": "{0}[()]", "re_kwstar": "re.compile('a', **{0})", "re_flags_kwstar": "re.compile('a', re.I, **{0})", "re_star": "re.compile(*{0})", "re_kw": "re.compile(pattern={0}, flags={1})",
 }
 EKEYS = list(EXTRA)
 NE = len(EKEYS)
@@ -207,7 +208,7 @@ NE = len(EKEYS)
 @harness(
     parts=lambda: list(range(NE)), timeout=(200, 1200), cls="E", tracing="concrete-after-choice", twin="first",
     code=["PyvalColorizer._colorize_ast* (comprehensions, walrus, slices with step, lambdas with arguments, mixed call arguments, chained comparisons, yield from, dict/tuple unpacking, annotation subscripts)", "_OperatorDelimiter"],
-    bounds={"quick": "29 further parent forms x child form (47 + plain name) x operand position", "thorough": "same"},
+    bounds={"quick": "34 further parent forms x child form (47 + plain name) x operand position", "thorough": "same"},
     outside="f-strings (astor renders a set/dict display inside the braces as escaped braces - noted, not claimed)",
 )
 def h_expr_more(ck: int, pos: int) -> bool:
@@ -327,6 +328,10 @@ def _unescape(e):
     while i < len(e):
         c = e[i]
         if c == "\\":
+            if i + 3 < len(e) and e[i + 1] == "x" and e[i + 2] in "0123456789abcdef" and e[i + 3] in "0123456789abcdef":
+                out.append(chr(int(e[i + 2:i + 4], 16)))
+                i += 4
+                continue
             if i + 1 >= len(e) or e[i + 1] not in table:
                 return None
             out.append(table[e[i + 1]])
